@@ -561,6 +561,10 @@ impl Sim {
                     e = Entity::try_from_bits(bits).ok().and_then(|x| self.rev.get(&x).cloned()).unwrap_or(format!("?{bits}"));
                 }
                 id = c.varint()?;
+                if t == "SMTrig" {
+                    // the payload entity (the same as the target, or the placeholder without a target)
+                    let _payload = c.varint()?;
+                }
             }
         }
         if c.rem() != 0 {
@@ -787,8 +791,10 @@ impl Sim {
         for (t, id, mode, to, e) in pend {
             let mode = self.send_mode(&mode, to.as_deref());
             let e = e.and_then(|n| self.server_entity(&n));
+            // the payload entity of a mapped trigger is always slot e1 (an id nobody maps while e1 is unused)
+            let payload = self.server_entity("e1").unwrap_or(Entity::from_raw(u32::MAX - 11));
             if let Some(mut p) = self.server.world_mut().get_resource_mut::<crate::events::PendingEmits>() {
-                p.0.push(crate::events::Emit::S { t, id, mode, e });
+                p.0.push(crate::events::Emit::S { t, id, mode, e, payload });
             }
         }
     }
